@@ -1595,7 +1595,7 @@ def jobs(prop, verif_seed, n, tier):
                 continue
             doc["sweep"] = {"op": cand[0], "max_offsets": 60 if tier == "quick" else 400}
             doc["final"] = {"where": "inproc"}
-            yield {"id": "sweep%d" % made, "engine": NAME, "func": "sweep", "doc": doc, "wall_cap": 2400}
+            yield {"id": "sweep%d" % made, "engine": NAME, "func": "sweep", "doc": doc, "wall_cap": 7200}
             made += 1
     for i in range(n):
         yield {"id": i, "engine": NAME, "func": "execute", "doc": generate(prop, verif_seed, i, tier), "wall_cap": 180}
